@@ -291,11 +291,12 @@ class MoveMemrefDims(RewritePattern):
             if new_dim_op is not dim_op:
                 dim_op.results[0].replace_all_uses_with(new_dim_op.results[0])
             for_op = find_parent_for_loop(dim_op)
+            assert for_op is not None
 
-            if is_in_loop(new_dim_op):
+            # only an op inside this loop has to move; one that already sits before the loop stays where it is
+            if for_op.is_ancestor(new_dim_op):
                 new_dim_op.detach()
 
-            assert for_op is not None
             if new_dim_op.parent_op() is None:
                 rewriter.insert_op(new_dim_op, InsertPoint.before(for_op))
             if new_dim_op is not dim_op:
